@@ -174,7 +174,7 @@ type c06Point struct {
 }
 
 var c06Methods = []string{"GET", "POST", "PUT", "DELETE", "HEAD", "OPTIONS"}
-var c06Origins = []string{"absent", "same", "other-origin", "other-referer", "same-host-other-port", "malformed"}
+var c06Origins = []string{"absent", "same", "other-origin", "other-referer", "same-host-other-port", "malformed", "lookalike-suffix-origin", "lookalike-prefix-origin", "lookalike-userinfo-origin", "lookalike-suffix-referer"}
 
 func c06PathFor(pattern string) string {
 	switch {
@@ -224,6 +224,15 @@ func c06Build(w *vfWorld, p c06Point) vfReq {
 		q.Header["Origin"] = "https://" + vfHost + ":8443"
 	case "malformed":
 		q.Header["Origin"] = "https://%zz"
+	// other sites whose name merely contains the service's host name
+	case "lookalike-suffix-origin":
+		q.Header["Origin"] = "https://" + vfHost + ".evil.example.net"
+	case "lookalike-prefix-origin":
+		q.Header["Origin"] = "https://evil-" + vfHost
+	case "lookalike-userinfo-origin":
+		q.Header["Origin"] = "https://" + vfHost + "@evil.example.net"
+	case "lookalike-suffix-referer":
+		q.Header["Referer"] = "https://" + vfHost + ".evil.example.net/page.html"
 	}
 	q.Cookies = []*http.Cookie{{Name: vipTransactionCookieName, Value: "push-cookie-1"}}
 	return q
@@ -277,7 +286,7 @@ func c06Run(w *vfWorld, f *vfFakes, shapes map[string]vfCredShape, p c06Point) (
 			dont = true
 		}
 	}
-	crossSite := p.Origin == "other-origin" || p.Origin == "other-referer"
+	crossSite := p.Origin == "other-origin" || p.Origin == "other-referer" || strings.HasPrefix(p.Origin, "lookalike-")
 	desc := fmt.Sprintf("%s %s shape=%s with=%q origin=%s -> status %d, admitted=%q, rows changed for %v, transaction-state changed=%v, signed=%v", p.Method, p.Path, p.Shape, p.With, p.Origin, resp.Code, admitted, changedUsers, tx, signed)
 	if resp.Panic != nil {
 		return false, "", "", fmt.Sprintf("%s|panic", pclass), true
@@ -362,7 +371,7 @@ func init() {
 	vfRegister(&vfeng.Check{
 		ID:    "C06",
 		Level: "model_checking",
-		Rule:  "exhaustive product: every route registered on the service mux of the current source (extracted from main() at check time, all conditional registrations enabled) x ~50 credential shapes (each alone and combined with another user's valid cookie) x {GET,POST,PUT,DELETE,HEAD,OPTIONS} x {no origin, same host, foreign Origin, foreign Referer, same host other port, malformed} with a well-formed body; observed: admitted identity (access-log seam), row-level digest of both databases, challenge/push maps, fake-VIP ground truth, server-signed material in the response; oracle: universal floor + policy table by handler name + cross-site rule + identity rule",
+		Rule:  "exhaustive product: every route registered on the service mux of the current source (extracted from main() at check time, all conditional registrations enabled) x ~50 credential shapes (each alone and combined with another user's valid cookie) x {GET,POST,PUT,DELETE,HEAD,OPTIONS} x {no origin, same host, foreign Origin, foreign Referer, same host other port, malformed, look-alike foreign hosts (host.evil, evil-host, host@evil) as Origin and Referer} with a well-formed body; observed: admitted identity (access-log seam), row-level digest of both databases, challenge/push maps, fake-VIP ground truth, server-signed material in the response; oracle: universal floor + policy table by handler name + cross-site rule + identity rule",
 		Assumptions: []string{"policy table (handler name -> accepted credential kinds/level) is the specification side, written from the statement; handlers not in the table get the universal floor only and are listed as unclassified", "starting a federated login (pending-state entry) is not a protected effect", "the request body carries no valid client secret, code, bearer token or presigned identity, so client/bearer/presigned endpoints must refuse everything"},
 		Shards: func(tier string) int { return 16 },
 		Run: func(c *vfeng.Ctx) {
